@@ -60,6 +60,9 @@ int LLVMFuzzerTestOneInput(const uint8_t *data, size_t size) {
 		int nops = 1 + take8(&r) % 6;
 		for (int i = 0; i < nops; i++) {
 			uint8_t op = take8(&r) % 12;
+#ifdef FZ_OPS_MASK
+			if (!((FZ_OPS_MASK >> op) & 1)) continue;
+#endif
 			size_t half = RLC_BN_DIGS / 2 > 0 ? RLC_BN_DIGS / 2 : 1;
 			take_bn(&r, a, op == 0 || op == 1 ? half : RLC_BN_DIGS);
 			take_bn(&r, b, op == 0 ? half : RLC_BN_DIGS);
